@@ -186,6 +186,13 @@ class AppNamespace(object):
         self._app_id = app_id
         self._mailboxes = {}
         self._allow_list = allow_list
+        self._bound_connections = 0
+
+    def connection_bound(self):
+        self._bound_connections += 1
+
+    def connection_lost(self):
+        self._bound_connections -= 1
 
     def log_client_version(self, server_rx, side, client_version):
         if self._blur_usage:
@@ -538,7 +545,9 @@ class AppNamespace(object):
             db.commit()
             if self._usage_db:
                 self._usage_db.commit()
-        in_use = bool(self._mailboxes)
+        # a bound connection holds a reference to this object: it must stay
+        # the one registered AppNamespace for its app_id
+        in_use = bool(self._mailboxes) or self._bound_connections > 0
         log.msg("  prune complete, modified=%s, in_use=%s" % (modified, in_use))
         return in_use
 
